@@ -370,7 +370,7 @@ pub fn run(ctx: &Ctx) -> Outcome {
     if let Some(p) = &ctx.replay {
         return replay(p, out);
     }
-    let depth = if ctx.quick() { 4 } else { 6 };
+    let depth = if ctx.quick() { 5 } else { 6 };
     let deadline = Instant::now() + Duration::from_secs_f64(ctx.budget_s);
     let xs: Vec<u32> = if ctx.quick() { vec![0, u32::MAX - 1] } else { vec![0, u32::MAX - 2, u32::MAX - 1, u32::MAX] };
     let (mut states, mut transitions, mut executions) = (0, 0, 0);
@@ -378,7 +378,18 @@ pub fn run(ctx: &Ctx) -> Outcome {
     let mut samples = vec![];
     let held = std::sync::atomic::AtomicUsize::new(0);
     let multi = std::sync::atomic::AtomicUsize::new(0);
-    for x in xs.iter().copied() {
+    // thorough: after the stated bound, one level deeper on the two main start values for as long as the budget
+    // lasts (reported separately; a cut there does not make the stated bound incomplete)
+    let mut plan: Vec<(u32, usize, bool)> = xs.iter().map(|x| (*x, depth, false)).collect();
+    if !ctx.quick() {
+        plan.push((0, depth + 1, true));
+        plan.push((u32::MAX - 1, depth + 1, true));
+    }
+    let mut extra_note = String::new();
+    for (x, depth, extra) in plan {
+        if extra && (truncated || Instant::now() > deadline) {
+            continue;
+        }
         let st = search(ALPHABET.len(), depth, ctx.threads, deadline, |h| {
             let (o, hb, m) = run_history(x, h.iter().map(|i| ALPHABET[*i]).collect());
             held.fetch_add(hb, std::sync::atomic::Ordering::Relaxed);
@@ -386,9 +397,13 @@ pub fn run(ctx: &Ctx) -> Outcome {
             o
         });
         executions += st.executions;
-        states += st.distinct_states;
-        transitions += st.distinct_transitions;
-        truncated |= st.truncated;
+        if extra {
+            extra_note += &format!("; additionally depth {depth} from next-outgoing-id {x}: {} executions, {}", st.executions, if st.truncated { "CUT by the budget" } else { "complete" });
+        } else {
+            states += st.distinct_states;
+            transitions += st.distinct_transitions;
+            truncated |= st.truncated;
+        }
         for m in st.machinery {
             out.machinery_errors.push(m);
         }
@@ -407,7 +422,7 @@ pub fn run(ctx: &Ctx) -> Outcome {
     out.set("steps_with_multi_frame_deliveries", multi.load(std::sync::atomic::Ordering::Relaxed) as u64);
     out.set("samples", json!(samples));
     out.set("exhaustive", !truncated);
-    out.set("bound", format!("histories of depth {depth} over {} events x initial next-outgoing-ids {:?}; peer's initial incoming-window 2; every history ends with the window reopened to 10000", ALPHABET.len(), xs));
+    out.set("bound", format!("histories of depth {depth} over {} events x initial next-outgoing-ids {:?}; peer's initial incoming-window 2; every history ends with the window reopened to 10000{extra_note}", ALPHABET.len(), xs));
     out.set("rule", "states = distinct (transfer frames sent, window left, messages waiting, transfers received) at quiescence; every state reached by executing the real session, link and connection engines against the scripted peer");
     out.assume("the scripted peer acts at quiescent points; a frame is judged against the last flow (or the begin) the peer sent before the step in which the frame was written");
     out
